@@ -207,6 +207,8 @@ class Check:
     rule = ''
     partial_notes = ()          # what is not carried by a theorem
     assumptions = ()
+    level = 0                   # stress level of the current run (set by run(); see harness/stress.py)
+    escalation_factor = 3       # quick-tier case multiplier when the anchored source changed
 
     # -- to override -------------------------------------------------------
     def corpus(self):
@@ -304,6 +306,14 @@ class Check:
         ensure_repo_import()
         pid = self.pid
         report = {'violations': [], 'extra': {}, 'broken': []}
+        # stress level (harness/stress.py): 0 quick, 1 quick on a source that differs from the recorded
+        # fingerprint (escalated search, never an alarm by itself), 2 thorough
+        from harness import stress
+        changed = stress.changed_files(REPO, pid)
+        self.level = 2 if tier == 'thorough' else (1 if changed else 0)
+        report['extra']['source_fingerprint'] = {
+            'anchored_files_changed_since_model_validation': changed, 'stress_level': self.level,
+            'note': 'a changed source is not a violation; it escalates the quick tier (more cases, larger sizes)'}
 
         # 1. tables
         from harness import tables
@@ -360,6 +370,8 @@ class Check:
         # 4. correspondence
         rng = random.Random(seed * 1000003 + 17)
         n = self.thorough_cases if tier == 'thorough' else self.quick_cases
+        if self.level == 1:
+            n = min(self.thorough_cases, n * self.escalation_factor)
         cases = list(self.corpus())
         n_corpus = len(cases)
         cases += list(self.generate(rng, n, tier))
